@@ -39,13 +39,15 @@ def rat_groups(tier, seed):
                 calls += solve_calls(n, rng, seeds[:1], [rng.choice([0, 3])], forms=(rng.randrange(1, 4),), strats=(rng.randrange(6),))
                 calls += ["run_subs<%d,%d>(%du);" % (n, c, seeds[0]) for c in (0, 1, rng.randrange(2, 9))]
             g(key, calls)
-        for key, sizes in (("rat/n10-12", [10, 12]), ("rat/n16-17", [16, 17]), ("rat/n20+", [20, rng.choice([11, 13, 14, 15, 18, 19])])):
-            calls = []
-            for n in sizes:
-                calls += solve_calls(n, rng, seeds[:1], [0, rng.randrange(1, 9)])
-                calls += ["run_subs<%d,%d>(%du);" % (n, c, seeds[0]) for c in (0, rng.randrange(1, 9))]
-            g(key, calls)
-        g("rat/b33", solve_calls(33, rng, seeds[:1], [0, 3], strats=(0, 1, 2, 3)) + ["run_subs<33,0>(%du);" % seeds[0], "run_subs<33,2>(%du);" % seeds[0]])
+        # forward/backward substitution and get_lu_solve have no size classes (compile-time recursion for every n); the LU / inverse
+        # underneath have (C10, C11): one size of the recursive class on each side of 16|17 plus a seed-dependent one, and 33
+        mids = [12, 17, rng.choice([10, 11, 13, 14, 15, 16, 18, 19, 20])]
+        for n in mids:
+            calls = solve_calls(n, rng, seeds[:1], [0, rng.randrange(1, 9)])
+            calls += ["run_subs<%d,%d>(%du);" % (n, c, seeds[0]) for c in (0, rng.randrange(1, 9))]
+            g("rat/n%d" % n, calls)
+        g("rat/b33", solve_calls(33, rng, seeds[:1], [0, 3], strats=(3,)) + solve_calls(33, rng, seeds[:1], [2], strats=(0,))
+          + ["run_subs<33,0>(%du);" % seeds[0], "run_subs<33,2>(%du);" % seeds[0]])
     else:
         for a in range(1, 21, 2):
             calls = []
@@ -70,6 +72,8 @@ def real_groups(tier, seed):
         calls = []
         for n in sizes:
             for s in range(6):
+                if tier == "quick" and n > 9 and s not in (1, 3):
+                    continue
                 for c in ((0, 3) if tier == "quick" else (0, 1, 2, 5, 8)):
                     for k in range(2 if tier == "quick" else 4):
                         calls.append("run_solvereal<%s,%d,%d,%d>(%du);" % (t, n, c, s, seed * 89 + k))
